@@ -13,7 +13,8 @@ def run(c):
     observer_design.run_design(c, "C05")
     observer_design.run_replay(c, "C05")
     b = 2 if c.thorough else 1
-    fams = [("removal", oe.fam_removal() + oe.fam_reentrant_unschedule(), b)]
+    fams = [("removal", oe.fam_removal() + oe.fam_reentrant_unschedule(), b),
+            ("removal by another thread, dispatch_events line by line", oe.fam_dispatch_lines(), b)]
     mixed = oe.fam_mixed_emitters()[:2]
     sampled = [("running and never-started emitters side by side, both set orders", mixed + oe.reversed_orders(mixed),
                 6000 if c.thorough else 1500)]
